@@ -58,8 +58,29 @@ STMTS = [
 ]
 
 
+ANNS = ["Literal[-'a']", "Literal[-None]", "Literal[-1]", "Literal[-1.5]", "Literal[~1]", "Literal[+'a']", "Literal[not 1]", "-int", "~int", "int + 1", "1 < 2", "lambda: 1", "[int]", "{int: str}", "{int}",
+        "f'{x}'", "int if 1 else str", "x := 1", "int[str]", "Literal[1.5]", "Literal[-1j]", "Literal[()]", "Literal", "Callable[int]", "Callable[[int], str, bytes]", "Annotated[int]", "Annotated[int, 1][2]",
+        "Tuple[()]", "Tuple[int, ..., str]", "Tuple[...]", "Optional", "Union[()]", "Dict[int]", "List[int, str]", "Type[1]", "typing.Final", "typing.ClassVar[int][str]", "Undefined.attr", "os.path", "None[int]",
+        "int | 'str'", "(int, str)", "int.real", "typing.Literal[Col.R, -Col.G]", "T[int]", "Child[int, str]", "DC(1)", "print", "...", "b'x'", "''", "' '", "1", "1.5 + 2j", "*int", "**int", "await x", "(yield)", "x for x in y"]
+
+
+def _ann_stmt(rnd):
+    a = rnd.choice(ANNS)
+    q = repr(a)
+    form = rnd.choice(["var", "param", "ret", "cast", "both"])
+    if form == "var":
+        return f"x: {q} = 1"
+    if form == "param":
+        return f"def inner_a(p: {q}, *r: {q}, k: {q} = 1, **s: {q}): pass\n    x = inner_a(1)"
+    if form == "ret":
+        return f"def inner_b() -> {q}: return 1\n    x = inner_b()"
+    if form == "cast":
+        return f"x = typing.cast({q}, 1)"
+    return f"def inner_c(p: {q}) -> {q}:\n        y: {q} = p\n        return y\n    x = inner_c(1)"
+
+
 def module(rnd, n):
-    picks = [rnd.choice(STMTS) for _ in range(n)]
+    picks = [rnd.choice(STMTS) if rnd.random() < 0.75 else _ann_stmt(rnd) for _ in range(n)]
     lines = [HEAD]
     for i, st in enumerate(picks):
         is_async = "await" in st.split("\n")[0] or "async for" in st or st.startswith("x = (c async")
